@@ -276,7 +276,8 @@ class RestAPI(object):
                 character limit described in the CreateStateMachine API page.
                 https://docs.aws.amazon.com/step-functions/latest/apireference/API_CreateStateMachine.html
                 """
-                if len(definition) == 0 or len(definition) > MAX_STATE_MACHINE_LENGTH:
+                if (not isinstance(definition, str) or
+                    len(definition) == 0 or len(definition) > MAX_STATE_MACHINE_LENGTH):
                     self.logger.error(
                         "RestAPI CreateStateMachine: Invalid definition size for State Machine '{}'.".format(name)
                     )
@@ -504,7 +505,8 @@ class RestAPI(object):
                     character limit described in the UpdateStateMachine API page.
                     https://docs.aws.amazon.com/step-functions/latest/apireference/API_UpdateStateMachine.html
                     """
-                    if len(definition) == 0 or len(definition) > MAX_STATE_MACHINE_LENGTH:
+                    if (not isinstance(definition, str) or
+                        len(definition) == 0 or len(definition) > MAX_STATE_MACHINE_LENGTH):
                         self.logger.error(
                             "RestAPI CreateStateMachine: Invalid definition size for State Machine '{}'.".format(state_machine_arn)
                         )
